@@ -5,9 +5,15 @@ Suites
   e2e        pinch_analysis_service with DO_AREA_TARGETING on random problems with strictly positive contributions and default /
              isothermal utilities; the arguments and the result of get_area_targets are captured by wrapping it (no source
              change), get_temperature_driving_forces / _map_interval_resistances_to_tdf / compute_LMTD_from_dts are then called
-             stage-level on exactly those arguments; coqc (judge_area) decides: balanced spans equal, area positive, area = sum
-             over the code's own intervals, area = INDEPENDENT interval sum recomputed in Q from the streams and utility duties
-             (LMTD values are floats of the implementation's compute_LMTD_from_dts, each checked in Q against the proved bounds);
+             stage-level on exactly those arguments; coqc (judge_e2e_tdf) decides: the interval data returned by
+             get_temperature_driving_forces equal what the model (model/TDF.v) computes from the captured balanced curves, balanced
+             spans equal, area positive, area = sum over the code's own intervals, area = INDEPENDENT interval sum recomputed in Q
+             from the streams and utility duties (LMTD values are floats of the implementation's compute_LMTD_from_dts, each checked
+             in Q against the proved bounds);
+  tdf        get_temperature_driving_forces called directly on (a) the balanced composite curve pairs captured from every end-to-end
+             case and (b) synthetic curve pairs (plateaus / vertical jumps / repeated points on either curve, coinciding break
+             points, top-down and bottom-up orientation, offset cascades, equal / unequal spans, empty arrays, length mismatch,
+             single points, min_dT); every returned array is compared element by element with model/TDF.v inside coqc (judge_tdf);
   cost       the three costing functions: (i) translator validation of the generated real functions by `interval`,
              (ii) P_b on the implementation: |compute_capital_cost(..) - N(a + b(A/N)^c)| and |crf * sum of discounted
              annuities - 1| bounded by `interval` proofs generated from the values the implementation returned,
@@ -33,11 +39,16 @@ RULE = ("e2e: 2..6 streams, temperatures multiples of 10 in [20, 300), CP in {0.
         "film coefficients in {0.5, 1, 2, 4}; utilities: none (defaults) or 0..3 hot and 0..3 cold isothermal levels; a case is non-trivial when "
         "it has >= 2 hot and >= 2 cold segments (streams + utilities with duty) and >= 4 enthalpy intervals; distinct = distinct input; "
         "balanced: vectors of length 2..9 on dyadic grids with utility columns zero on a random subset of rows; cost: dyadic parameters, "
-        "integer and half-integer service lives")
+        "integer and half-integer service lives; tdf: curves from 0 to a span in {1, 10, 25.5, 56.2, 105} with 0..4 interior break points drawn from a "
+        "pool shared by both curves, each break point repeated 2..4 times with probability 0.2/0.45 (temperature jump 0, 5, 12.5 or 40), 8 % unequal "
+        "spans, 4 % empty, 5 % length mismatch, 5 % single points, 30 % offsets (incl. below / at tol); non-trivial = a plateau and >= 3 intervals")
 ASSUMPTIONS = ["LMTD values entering the rational area sums are floats produced by the implementation's compute_LMTD_from_dts (the function "
                "verified by C20); inside coqc each is only checked to lie within [min, mean] of its interval's exact end differences",
-               "get_temperature_driving_forces (plateau handling, 6-dp rounding, discontinuity block) is not modelled: its outputs are "
-               "compared with the independent specification, not derived",
+               "get_temperature_driving_forces is modelled (model/TDF.v) as the exact-arithmetic semantics of the float code; cases where a float "
+               "comparison can go either way are classified fragile inside coqc and not compared: a 6-dp rounding tie in an input, a tolerance "
+               "comparison within 0.1 % of tol, make_monotonic output not strictly increasing (outside np.interp's contract), and an enthalpy sliver "
+               "<= 1e-9 created by float noise in `h - offset` (np.union1d keeps both values)",
+               "np.interp is modelled for increasing abscissae only (linear scan = numpy's binary search there)",
                "enthalpy slivers below 1e-9 (float noise in utility duties) are skipped by the specification",
                "floats are exact reals in the cost laws; `**` with a real exponent is Rpower (bases are positive in the theorems)",
                "the exchanger-count target is not part of the property statement's clauses and is only used as the N of the cost law"]
